@@ -283,6 +283,26 @@ func TestVFC05DHCPPrograms(t *testing.T) {
 			if rerr != nil && !os.IsNotExist(rerr) {
 				fail("leases.json after the program: %v", rerr)
 			}
+			if rerr == nil {
+				// every change stores the table, so once the program is over
+				// the file must list the table that is in memory
+				disk := map[string]bool{}
+				for _, l := range doc.Leases {
+					mac, _ := net.ParseMAC(l.MAC)
+					disk[fmt.Sprintf("%s|%s|%t", mac, l.IP, l.Static)] = true
+				}
+				for id := range mem {
+					if !disk[id] {
+						fail("after the program the lease %s is in memory but not in leases.json (%d entries there)", id, len(disk))
+					}
+				}
+				for id := range disk {
+					if !mem[id] {
+						fail("after the program leases.json lists %s, which is not in memory (%d entries there)", id, len(mem))
+					}
+				}
+				vfC05D.Class("dhcp:disk_compared_with_memory")
+			}
 		}
 
 		vfC05D.Eval()
